@@ -184,3 +184,24 @@ func (v vec3) SubBad(v1 vec3) vec3 {
 func (v vec3) DotBad(v1 vec3) float64 {
 	return v[0]*v1[0] + v[1]*v1[1] + v[2]+v1[2]
 }
+
+// want:SPLIT2 only the upper end is clamped.
+func HalvesBad(cum []float64, items []int) ([]int, []int) {
+	k := sort.SearchFloat64s(cum, cum[len(cum)-1]/2)
+	if k > len(items)-1 {
+		k = len(items) - 1
+	}
+	return items[:k], items[k:]
+}
+
+// clean:SPLIT2
+func HalvesGood(cum []float64, items []int) ([]int, []int) {
+	k := sort.SearchFloat64s(cum, cum[len(cum)-1]/2)
+	if k > len(items)-1 {
+		k = len(items) - 1
+	}
+	if k < 1 {
+		k = 1
+	}
+	return items[:k], items[k:]
+}
